@@ -169,7 +169,34 @@ def check_cache_many_haplotypes(tier, seed):
     return {"bound": "(ploidy, haplotypes) in (3,40),(1,70),(2,50),(7,24),(4,20); 40+ cached vs uncached Gibbs vectors each", "evaluations": ev, "distinct_nontrivial": nontriv, "failures": fails, "samples": [{"ploidy": 3, "haplotypes": 40}], "exhaustive": False}
 
 
-CHECKS = [check_gibbs_and_mh, check_random_scan, check_cache_many_haplotypes]
+def check_fit_without_reads(tier, seed):
+    """CallingMCMC.fit on a sample WITHOUT reads at a locus with several haplotypes: the posterior is the prior, so the
+    sampler's long-run genotype frequencies must match call-exact's enumeration for inbred samples too (loose, > 5 sigma
+    Monte-Carlo tolerance; a stochastic stand-in for the exact kernel checks above at the level of the fitted class)"""
+    from mchap.calling.classes import CallingMCMC
+    from mchap.calling.exact import genotype_likelihoods, genotype_posteriors
+
+    H = np.array([[0, 0, 0, 0], [0, 0, 1, 1], [0, 1, 0, 1], [1, 1, 1, 0]], dtype=np.int8)
+    reads = np.empty((0, 4, 2), dtype=float)
+    counts = np.array([], dtype=np.int64)
+    ev = 0
+    fails = []
+    skew = np.array([0.5, 0.3, 0.15, 0.05])
+    cases = [(4, 0.4, skew, "Gibbs"), (4, 0.25, None, "Gibbs"), (2, 0.4, skew, "Metropolis-Hastings")]
+    if tier != "quick":
+        cases += [(6, 0.6, skew, "Gibbs"), (4, 0.0, skew, "Gibbs"), (4, 0.4, None, "Metropolis-Hastings")]
+    for k, (ploidy, F, fr, step) in enumerate(cases):
+        got = CallingMCMC(ploidy=ploidy, haplotypes=H, inbreeding=F, frequencies=fr, steps=6000, chains=2, random_seed=int(seed) + 11 + k, step_type=step).fit(reads, counts).burn(1000).posterior().as_array(len(H))
+        llks = genotype_likelihoods(reads=reads, read_counts=counts, ploidy=ploidy, haplotypes=H).astype(np.float64)
+        exact = np.asarray(genotype_posteriors(llks, ploidy=ploidy, n_alleles=len(H), inbreeding=F, frequencies=fr), dtype=float)
+        ev += 1
+        d = float(np.abs(np.asarray(got) - exact).max())
+        if d > 0.06 and len(fails) < 2:
+            fails.append({"key": "rt/call_fit_without_reads_matches_exact_prior", "check": "mchap.calling.classes.CallingMCMC.fit", "input": {"ploidy": ploidy, "inbreeding": F, "frequencies": None if fr is None else fr.tolist(), "step_type": step, "reads": 0}, "observed": {"max_abs_difference": d}, "expected": "<= 0.06 (Monte-Carlo error of 2 x 5000 retained steps is below 0.02)"})
+    return {"bound": "%d (ploidy, inbreeding, prior, step type) settings, no reads, 2 chains x 6000 steps" % len(cases), "evaluations": ev, "distinct_nontrivial": ev, "failures": fails, "samples": [], "exhaustive": False}
+
+
+CHECKS = [check_gibbs_and_mh, check_random_scan, check_cache_many_haplotypes, check_fit_without_reads]
 REPLAY = {
     "mchap.calling.mcmc.gibbs_options": first_failure(check_gibbs_and_mh),
     "mchap.calling.mcmc.mh_options": first_failure(check_gibbs_and_mh),
